@@ -341,7 +341,11 @@ func cmdCheck(args []string) {
 		fmt.Fprintln(os.Stderr, "no such property in checks.json:", prop)
 		os.Exit(2)
 	}
-	outDir := filepath.Join(verifDir, "out", prop)
+	outBase := verifDir
+	if sd := os.Getenv("VERIF_SCRATCH"); sd != "" {
+		outBase = sd // evaluation runs against a mutated copy: keep replay files and evidence apart
+	}
+	outDir := filepath.Join(outBase, "out", prop)
 	os.MkdirAll(outDir, 0755)
 
 	if replayFile != "" {
@@ -744,8 +748,12 @@ func runCheck(prop, tier string, seed int, repoDir string, spec propSpec, outDir
 		"violations":  totalViol,
 	}
 	eb, _ := json.MarshalIndent(ev, "", " ")
-	os.MkdirAll(filepath.Join(verifDir, "evidence"), 0755)
-	os.WriteFile(filepath.Join(verifDir, "evidence", prop+".json"), eb, 0644)
+	evBase := verifDir
+	if sd := os.Getenv("VERIF_SCRATCH"); sd != "" {
+		evBase = sd
+	}
+	os.MkdirAll(filepath.Join(evBase, "evidence"), 0755)
+	os.WriteFile(filepath.Join(evBase, "evidence", prop+".json"), eb, 0644)
 	for _, m := range inconclusive {
 		fmt.Println("INCONCLUSIVE:", m)
 	}
